@@ -374,6 +374,13 @@ def run(ctx):
             outs = emit.default_outputs("../out", matlab=True, json=True)
             files = evo.chain_files([base_pkg, newer], outs)
             root_rel = "v1"
+            if i % 3 == 1:
+                # the same previous version listed under two labels (two releases that did not touch this package)
+                files["v1/_package.yml"] = files["v1/_package.yml"].replace("  v0: ../v0\n", "  v0: ../v0\n  v0_1: ../v0\n")
+                desc += " (the previous version listed under two labels)"
+            elif i % 3 == 2:
+                files["v1/_package.yml"] = files["v1/_package.yml"].replace("  v0: ../v0\n", "  v0: ../v0\n  again: ../v0/../v0\n  third: ../v0\n")
+                desc += " (the previous version listed under three labels, one through another path spelling)"
             desc += " previous version + edit %s" % info["name"]
         elif kind == "rules":
             rid, ty, pos, second = RULES[i]
